@@ -108,6 +108,18 @@ CHECKS = {
         text="Two consecutive next_u32 return low then high half of one collected value with the timer read only during the first; every other output call performs a fresh collection of the expected number of readings; a clone's first output always comes from a fresh collection. The one literal deviation (fill_bytes of 1..4 bytes with a half pending reuses the half, by design of the crate) is a recorded known finding.",
         note="non-stuck scripted timers; clones get an identical timer (independent cursor); known finding C16:fill-tail-reuses-pending-half",
         ref="4/C16"),
+    "C18": dict(
+        engine="E6", cat="exploration",
+        technique="complete configuration matrix {opt 0,3} x {overflow-checks+debug-assertions on,off} x {serde on,off}: the same enumerated corpus (histories, constructors, jumps, scripted-timer JitterRng incl. hostile timers) replayed by the same source in all 8 builds, per-item digests compared",
+        text="Every item of a fixed enumerated corpus (all histories to depth 2/3 over the output alphabet from 4 seeds and 2 buffer offsets for 19 types, byte-probe and pair-of-bits seeds, u64 ranges, long runs, JitterRng deviations/bursts/test_timer patterns) produces the same digest - or the same panic - in all 8 build configurations.",
+        note="corpus is finite and fixed; configurations are the complete matrix stated in the property; the serde axis only changes what is compiled",
+        ref="4/C18"),
+    "C19": dict(
+        engine="E5", cat="model_checking",
+        technique="exhaustive enumeration of operation-granularity interleavings x thread assignments of 2-3 generator instances on real OS threads under a token-passing scheduler; oracle = the same instance history run alone in a fresh child process; Send/Sync by a compile-time probe",
+        text="For 176 configurations (same-type seed pairs incl. zero seeds, cross-type pairs, zero seeds of increasing state size, JitterRng pairs incl. test_timer, three-instance runs) every interleaving of the [construct, op, op] histories and every assignment of steps to two threads is executed; each instance's observations equal its solo run in a fresh process. All generator types are Send + Sync (compile-time probe).",
+        note="operation granularity is complete because no generator path contains a synchronisation operation (inventory printed); JitterRng::new() (wall clock) excluded; schedules are serialised, so the memory model is not exercised",
+        ref="4/C19"),
 }
 
 PLAN_REASON = "check not built yet (work in progress; DESIGN.md section 4 has the plan)"
